@@ -26,7 +26,8 @@ KANI_LIB_C = os.path.expanduser("~/.kani/kani-0.68.0/library/kani/kani_lib.c")
 ENV = dict(os.environ, CARGO_NET_OFFLINE="true", CARGO_TERM_COLOR="never")
 NCPU = os.cpu_count() or 4
 
-CAPS = {"quick": dict(time=600, mem_gb=12), "thorough": dict(time=3600, mem_gb=24)}
+CAPS = {"quick": dict(time=int(os.environ.get("ZV_CAP_S", 600)), mem_gb=float(os.environ.get("ZV_MEM_GB", 12))),
+        "thorough": dict(time=int(os.environ.get("ZV_CAP_S", 3600)), mem_gb=float(os.environ.get("ZV_MEM_GB", 24)))}
 
 MEMSAFE_CLASSES = ("pointer_dereference", "pointer_arithmetic", "pointer", "memory-leak",
                    "deallocated", "misaligned")
